@@ -52,17 +52,22 @@ def full_copy_stage(chk, tier, seed):
         meta[str(i)] = (inp, opts)
         blocks.append((str(i), GF.case_lines(inp, opts, {"iterations": 40, "duration_ms": 1500, "runs": 1, "starts": 1, "output": 0, "copycheck": 1})))
     res = CR.run_crash(blocks, "c11_copy_" + tier, timeout=3000)
-    checked = nd = 0
+    checked = nd = nrand = 0
     for cid, r in res.items():
         if r.get("copychecked"):
             checked += 1
+        if r.get("copyrandomchecked"):
+            nrand += 1
         if r.get("copydiff"):
             nd += 1
             inp, opts = meta[cid]
             chk.violation({"kind": "input", "what": "copy differs from its original: " + r["copydiff"][0][:300], "differences": r["copydiff"][:8],
                            "input": inp, "options": opts, "how": "harness crash copycheck=1"})
     chk.ob("copies of solver-made solutions on %d full-feature models show the same as their originals" % checked, nd == 0)
+    chk.ob("random sources of a copy and of its original are independent in both directions on %d twin pairs "
+           "(own source and the sources of the unit collections)" % nrand, nd == 0)
     chk.ev.cov["full_feature_copies_checked"] = checked
+    chk.ev.cov["random_source_twin_pairs"] = nrand
 
 
 def run(tier, seed, replay=None):
